@@ -311,6 +311,23 @@ def conversion(ck: Check, info):
                          f"significant digits is {float(ora[0]) if ora else v!r}", {"bits": f"{bits:08x}", "value": repr(v), "result": repr(real)})
         ops.append(f"conv.float7 {bits:08x}")
         checks.append((lambda out, real=real: None if same_float(parse_m(out.split(" "))[0], real) else f"model {out}, real {real!r}"))
+    # 1b. the function must be a FUNCTION: the result for a value may not depend on what was converted before
+    # (values that compare equal but are different floats: the two zeros; and plain repetition)
+    seqs = [[0x00000000, 0x80000000, 0x00000000], [0x80000000, 0x00000000, 0x80000000],
+            [f32bits(21.55), 0x80000000, f32bits(21.55), 0x00000000], [0x7FC00000, 0xFFC00000, 0x7FC00000]]
+    for sq in seqs:
+        outs_ = []
+        for bits in sq:
+            v = struct.unpack("<f", struct.pack("<I", bits))[0]
+            outs_.append((bits, v, fix_float_single_double_conversion(v)))
+        for bits, v, real in outs_:
+            ora = exact_fix7(bits)
+            want = float(ora[0]) if ora is not None else v
+            ok = (real != real and v != v) or struct.pack("<d", want) == struct.pack("<d", real)
+            if not ok:
+                ck.violation(f"float7-history:{bits:08x}", f"fix_float_single_double_conversion({v!r}) = {real!r} when converted in the "
+                             f"sequence {[f'{b:08x}' for b in sq]} (expected {want!r}: zero, infinities and NaN unchanged, sign included)",
+                             {"sequence": [f"{b:08x}" for b in sq], "bits": f"{bits:08x}", "result": repr(real)})
     # 2. every paired class: from_pb on generated messages
     mods = {n: getattr(M, n) for n, _ in info["fields"]["classPairs"]}
     families = (M.EntityInfo, M.EntityState, M.DeviceInfo, M.UserService, M.UserServiceArg)
